@@ -26,18 +26,16 @@ RULE = ("exhaustive: every pair (table, queries) of sorted multisets of <=2 rows
         "in_range / in_ranges for a chromosome absent from a non-empty table; in_ranges with 1-3 possibly unsorted / "
         "repeated queries given as list, tuple, ndarray (int, float) or Series with foreign labels, and with starts "
         "or ends or both None; into_ranges on a float column (default nanmedian, also with NaN values), with a "
-        "supplied function (max, len, last, np.nanmean), with a non-callable constant, with a string column + "
+        "supplied function (max, len, last, np.nanmean, and the combiners first_of / last_of / join_strings of skgenome.combiners), with a non-callable constant, with a string column + "
         "function, for a missing column, with NaN / numeric defaults, positional and keyword.  non-trivial = some "
         "query overlaps some row of the same chromosome; distinct by hash of (op, input)")
 EXHAUSTIVE = {"quick": True, "thorough": True}
 ASSUMPTIONS = ["queried table sorted by (chromosome key, start, end), start < end, coordinates >= 0; the rows of "
                "one chromosome are contiguous in the query table (their order within it is free)"]
 TRUSTED_EXTRA = ["numpy searchsorted on a monotone column = counting (Basic.ssLeft/ssRight)",
-                 "into_ranges on a numeric column / with a supplied function: the rows per range come from the Lean model "
-                 "(iterSlices, outer), the summary over them (median, max, len, mean, constant) is recomputed in Python "
-                 "(the driver only evaluates the string-column model intoRangesStr)",
-                 "in_ranges with starts or ends None is sent to the model with 0 / 10^9 in place of the open bound "
-                 "(equivalent for coordinates in [0, 10^9))"]
+                 "into_ranges with a supplied callable: the callables the generator passes (max, len, last, np.nanmean) are "
+                 "re-implemented by name in Driver/RangesExt.lean (namedFunc; first_of / last_of / join_strings are the model's own combiners); everything else of into_ranges (default, "
+                 "single hit, join_strings, nanmedian, first_of, constant, missing column) is the Lean model intoRangesGA"]
 MODES = ("outer", "inner", "trim")
 BIG = 10 ** 9
 
@@ -108,8 +106,8 @@ def _range_ops(t, queries, chroms=None):
 
 # ---- into_ranges beyond the string column --------------------------------------------------------------------
 
-FLOAT_FUNCS = (None, None, None, "max", "len", "last", "nanmean", "const")
-STR_FUNCS = ("len", "last", "const")
+FLOAT_FUNCS = (None, None, None, "max", "len", "last", "nanmean", "const", "first_of", "last_of")
+STR_FUNCS = ("len", "last", "const", "join_strings", "last_of")   # first_of / last_of / join_strings: skgenome.combiners
 
 
 def _into_col_case(rng, a, b):
@@ -140,35 +138,19 @@ def _into_col_case(rng, a, b):
     return {"op": "into_ranges", "in": i}
 
 
-def _summary(i, vals):
-    """the documented summary of >= 2 values (table order)"""
-    f = i["func"]
-    if f is None:
-        if isinstance(vals[0], str):
-            out = []
-            for v in vals:
-                if v not in out:
-                    out.append(v)
-            return ",".join(out)
-        if isinstance(vals[0], int):
-            return vals[0]
-        xs = sorted(v for v in vals if v is not None)
-        if not xs:
-            return None
-        n = len(xs)
-        return xs[n // 2] if n % 2 else (xs[n // 2 - 1] + xs[n // 2]) / 2
-    if f == "max":
-        return max(vals)
-    if f == "len":
-        return len(vals)
-    if f == "last":
-        return vals[-1]
-    if f == "nanmean":
-        xs = [v for v in vals if v is not None]
-        return sum(xs) / len(xs) if xs else None
-    if f == "const":
-        return i["const"]
-    raise ValueError(f)
+def _cell(v):
+    """a column cell for the Lean driver: str / int / bool as they are, NaN as null, a float as its exact rational"""
+    if v is None or isinstance(v, (str, bool, int)):
+        return v
+    from ..core import frac
+    return {"q": frac(v)}
+
+
+def _uncell(c):
+    if isinstance(c, dict):
+        from fractions import Fraction
+        return float(Fraction(c["q"]))
+    return c
 
 
 def _same(x, y):
@@ -477,8 +459,10 @@ def run_impl(case):
         a0, a = table("a", extra)
         b0, b = table("b")
         f = i["func"]
+        from skgenome import combiners
         func = {None: None, "max": max, "len": len, "last": (lambda ser: ser.iat[-1]), "nanmean": np.nanmean,
-                "const": i.get("const")}[f]
+                "const": i.get("const"), "first_of": combiners.first_of, "last_of": combiners.last_of,
+                "join_strings": combiners.join_strings}[f]
         default = float("nan") if i["default"] is None else i["default"]
         params = [("other", b, False, None), ("column", i["col"], False, None), ("default", default, False, None)]
         if f is not None or form == "kw":
@@ -532,10 +516,23 @@ def _run(a, b, op, i, form):
 def to_line(case, impl):
     i = case["in"]
     if case["op"] == "into_ranges" and "col" in i:
-        # the model supplies the rows per range (iterSlices, outer, keep_empty); the summary is recomputed in `judge`.
-        # A missing column behaves like an empty source: every range gets the default.
-        return {"op": "iter_ranges_of", "in": {"a": [] if i.get("nocol") else i["a"], "b": i["b"], "mode": "outer",
-                                                "keep_empty": True}}
+        # the whole of into_ranges is modelled (Model/RangesExt.lean: intoRangesGA): cells of the column, default,
+        # summary kind; the Lean spec evaluates the property's wording on the real output
+        line = {"op": "into_ranges_val",
+                "in": {"a": i["a"], "b": i["b"], "cells": None if i.get("nocol") else [_cell(v) for v in i["vals"]],
+                       "default": _cell(i["default"]), "func": i["func"], "const": _cell(i.get("const"))}}
+        if not (isinstance(impl, dict) and "__error__" in impl):
+            line["impl"] = [_cell(v) for v in impl]
+        return line
+    if case["op"] == "in_ranges" and (i.get("open") or sum(q[0] for q in i["qs"]) % 2):
+        # open sides travel as None (Model/RangesExt.lean: inRangesOpt); half of the closed cases take this door too
+        line = {"op": "in_ranges_opt",
+                "in": {"t": i["t"], "chrom": i["chrom"], "mode": i["mode"],
+                       "starts": None if i.get("open") in ("start", "both") else [q[0] for q in i["qs"]],
+                       "ends": None if i.get("open") in ("end", "both") else [q[1] for q in i["qs"]]}}
+        if not (isinstance(impl, dict) and "__error__" in impl):
+            line["impl"] = impl
+        return line
     line = {"op": case["op"], "in": i}
     if not (isinstance(impl, dict) and "__error__" in impl):
         line["impl"] = impl
@@ -549,19 +546,13 @@ def judge(case, impl, resp):
         return [], ["model error: " + resp["error"]], None
     i = case["in"]
     if case["op"] == "into_ranges" and "col" in i:
+        spec = list(resp.get("spec") or [])
         disagree = []
         if resp.get("specm"):
             disagree.append(f"model violates its own spec: {resp['specm']}")
-        val = {r[3]: v for r, v in zip(i["a"], i["vals"])}
-        expect = []
-        for sel in resp["out"]:
-            vs = [val[g] for g in sel]
-            expect.append(i["default"] if not vs else vs[0] if len(vs) == 1 else _summary(i, vs))
-        spec = []
-        if len(impl) != len(i["b"]):
-            spec.append("into_ranges_length")
-        elif not all(_same(x, y) for x, y in zip(impl, expect)):
-            spec.append("into_ranges_value")
+        model = [_uncell(c) for c in resp["out"]]
+        if len(model) != len(impl) or not all(_same(x, y) for x, y in zip(impl, model)):
+            disagree.append("into_ranges: impl != model")
         return spec, disagree, None
     spec = list(resp.get("spec") or [])
     disagree = []
